@@ -122,7 +122,7 @@ Definition t2_attempt (m : list Z) (L : layout) (from cache d : list Z) (k : opt
   : res unit * (list Z * list Z * list Z) * list write :=
   if negb (l_wr L) then (Crash AttributeErr, (m, from, cache), [])
   else if l_cap L <? len d then (Err ValueError, (m, from, cache), [])
-  else run_attempt 4 (len m) m from cache (t2_phases L d) k f.
+  else run_attempt 4 (len m) view m from cache (t2_phases L d) k f.
 Fixpoint t2_attempts (L : layout) (d : list Z) (faults : list (nat * fate)) (st : list Z * list Z * list Z)
   : list Z * list Z * list Z :=
   match faults with
